@@ -157,6 +157,21 @@ CLAIMS = {
          "from their bit patterns as integers.",
     technique="TLA+ specs (Bytecode + program generator) + TLC; independent printer and real parser; TLC trace "
               "validation of text-vs-API equality"),
+ "C02": dict(
+    text="OrcOps.tla (over OrcWord.tla: words as little-endian byte sequences) defines every integer opcode of the sys "
+         "set from the opcode reference (doc table + opcodes.h expressions), not from the emulator; TLC checks "
+         "algebraic sanity properties of these definitions over all 65536 byte pairs (Test_OrcOps).  One-opcode "
+         "programs are emulated over operand vectors and TLC validates every element of every Run event against "
+         "OrcOps (Trace_Ops): all 256 values / 65536 pairs of 8-bit operands, all 65536 values of 16-bit first "
+         "operands, boundary-biased and seeded random operands for every size, the second operand as array, "
+         "parameter and constant, n crossing the 16-element emulation chunks, misaligned arrays, x1/x2/x4 lane-wise, "
+         "accumulators from zero, fence bytes next to the destination.",
+    design_ref="DESIGN.md section 6 C02",
+    note="Not all 2^32 pairs of 16-bit binary opcodes (second operand sampled); float opcodes are C18's; loads with "
+         "index maps are validated at program level (C01/C03).  XML-table errata (andn, ldresnear shift, cmplt text) "
+         "follow opcodes.h.",
+    technique="TLA+ executable reference semantics (OrcOps) evaluated by TLC on traces of the emulator; TLC-checked "
+              "sanity theorems of the reference"),
 }
 
 NOT_APPLICABLE = {
